@@ -139,7 +139,8 @@ for cls, mod in (('Socket', 'socket'), ('AsyncSocket', 'async_socket')):
     c.ensures('enqueued-once', 'implies(not old(ping_expired(self, now)), '
               'self.queue.accepted == old(self.queue.accepted) + [pkt] and '
               'self.queue.items == old(self.queue.items) + [pkt] and ' + FLAGS_SAME +
-              ' and events == old(events) and hresults == old(hresults))', props=['C03'])
+              ' and events == old(events) and hresults == old(hresults) and now == old(now))',
+              props=['C03'])
     c.ensures('already-closing-silent', 'implies(old(self.closing), ' + FLAGS_SAME +
               ' and events == old(events) and hresults == old(hresults))')
     c.ensures('events-only-grow', 'grows(events, old(events))')
@@ -371,6 +372,10 @@ c.requires('not self.closed', 'session-open')
 c.requires('self.server.max_http_buffer_size >= 0', 'limit-nonneg')
 c.abstract("for attr in ['_sock', 'socket']:",
            'socket time-out tuning on driver-internal attributes; touches no modelled state')
+# C14: a frame handed to the packet decoder (and from there to receive / the handlers) is never
+# longer than the limit (a frame of exactly the limit passes)
+c.check_before('pkt = packet.Packet(encoded_packet=p)', 'frame-within-limit',
+               'len(p) <= self.server.max_http_buffer_size', props=['C14'])
 # C05: after the disconnect event no frame is read any more (so none can produce an event)
 c.check_before('try: p = websocket_wait()', 'reads-only-while-open', 'not self.closed',
                props=['C05'])
@@ -502,3 +507,33 @@ c.ensures('flag-reset', 'implies(' + UPG + ', not self.upgrading)', props=['C06'
 c.ensures('upgrade-only-via-probe', 'implies(' + UPG + ' and old(self.connected) and '
           'self.upgraded, handshake_frames(ws_log, len(old(ws_log))))', props=['C06'])
 c.modifies(*WS_MOD)
+
+
+# ----------------------------------------------------------------------------------- C07 lemmas
+def _c07(eng):
+    import z3
+    T, tp, t, pt, pi, d, tc = z3.Reals('T tp t pt pi d tc')
+    out = []
+    # ACCURACY: a PONG that arrives within ping_timeout of its PING can never be preceded by a
+    # time-out verdict: at any instant t up to the PONG the strict test `t - T > pt` is false
+    out.append(('accuracy-no-false-timeout', [pt >= 0, tp <= T + pt, t <= tp, t >= T],
+                z3.Not(t - T > pt)))
+    # after the PONG, last_ping is None until the next PING is emitted ping_interval later
+    # (postconditions of receive/PONG and _send_ping), so the test is not even evaluated.
+    # BOUND: with the last PONG at tp the next PING goes out at T' = tp + pi (ideal timers) and the
+    # deadline is d = T' + pt; any check at a time tc in (d, d + 2*pt] closes the socket, so a
+    # monitor that checks every socket at least once in every window of 2*pt closes it no later
+    # than tp + pi + 3*pt
+    out.append(('bound-three-timeouts', [pt >= 0, pi >= 0, d == tp + pi + pt, tc > d,
+                                         tc <= d + 2 * pt], z3.And(tc - (tp + pi) > pt,
+                                                                   tc <= tp + pi + 3 * pt)))
+    # the first send after the deadline closes first (send's postcondition dead-peer-closed-first):
+    out.append(('send-after-deadline-sees-expiry', [pt >= 0, d == T + pt, t > d], t - T > pt))
+    # poll time-out: nothing for ping_interval + ping_timeout -> QueueEmpty (poll contract)
+    return out
+
+
+REG.pylemma('C07-heartbeat-arithmetic', ['C07'], _c07,
+            note='ACCURACY and BOUND over the ghost clock; uses the postconditions of _send_ping '
+                 '(PING exactly ping_interval after it was scheduled), receive/PONG (re-arms) and '
+                 'check_ping_timeout (strict test)')
